@@ -19,7 +19,7 @@ RULE = ('A formula whose bounds are counted in sampling periods, a sampling peri
         '(also with the sampling period written in another unit and with another default unit) must give identical results offline and '
         'online, before and after pastify(), and equal R-dt computed with bound/period; a spelling may also write the same requirement text '
         'twice (two assertions) or call parse() twice before pastify(). Lanes reconfigure / reconfigure_unit: one object used under one sampling period / default unit, '
-        're-configured (set_sampling_period, spec.unit, parse, pastify, reset) and used again equals a fresh object under the second configuration. Lane reject: one bound is moved off the sampling '
+        're-configured (set_sampling_period, spec.unit, parse, pastify, reset) and used again equals a fresh object under the second configuration. Lane reject_live: a live online monitor (also pastified) whose sampling period is changed so that a bound is no longer a multiple of it: reset() and every later call must raise RTAMTException until the period fits again, then reset() gives a fresh monitor. Lane dense_online: the dense lane through the dense-time online monitor (pastified when the formula looks ahead), input in one or two calls, the three notations must cover the same span with the same values. Lane twins also writes one twin without any unit next to one in the coarse unit. Lane constbound also hands the constant to declare_const() as a Python number. Lane reject: one bound is moved off the sampling '
         'grid (by a fraction of the period or by a fraction of a nanosecond; periods down to 1 ns): RTAMTException no later than the first evaluate/update, never a value. Lane dense_decimal: default unit ms / us, whole time stamps, bounds that are whole tens of the default unit also written as decimals of the coarser unit (1070 ms = 1.07 s): identical results. Lane dense: grid signals; bounds spelled with '
         'explicit units, and the whole case restated in another default unit (time stamps scaled): identical step functions. '
         'Non-trivial = the two spellings differ in >= 1 unit token and the result is not constant; distinct = distinct (text1, text2, '
